@@ -78,6 +78,22 @@ static void c13_strings(const std::vector<std::string>& cat, int maxsites, int m
       }
     }
   }
+  // long strings: every total length 1..600 (and the neighbours of 1024, 4096, 65536) reached by padding with one separator kind in front,
+  // inside, behind or spread one by one between the characters -- buffer-size boundaries of any normaliser; names and a one-letter-longer non-name
+  if (nonnames) {
+    std::vector<std::string> pick; if (!cat.empty()) { pick.push_back(cat.front()); pick.push_back(cat[cat.size() / 2]); pick.push_back(cat.back()); }
+    std::vector<int> lens; for (int t = 1; t <= 600; t++) lens.push_back(t); for (int c : {1024, 4096, 65536}) for (int dlt = -2; dlt <= 2; dlt++) lens.push_back(c + dlt);
+    for (auto& n0 : pick) for (int extra = 0; extra < 2; extra++) {
+      std::string n = extra ? n0 + "x" : n0; int L = n.size();
+      for (int total : lens) { int pad = total - L; if (pad <= 0) continue;
+        for (char sep : {' ', '-'}) {
+          add(std::string(pad, sep) + n); add(n + std::string(pad, sep)); { std::string t2 = n; t2.insert(L / 2, std::string(pad, sep)); add(t2); }
+          if (total <= 600) { std::string sp; int q = pad / (L - 1 > 0 ? L - 1 : 1), r = pad - q * (L - 1 > 0 ? L - 1 : 1); for (int i = 0; i < L; i++) { sp.push_back(n[i]); if (i + 1 < L) sp.append(q + (i < r ? 1 : 0), sep); } add(sp); }
+        }
+        if (total <= 600) { std::string mix; for (int i = 0; i < pad; i++) mix.push_back(i % 3 == 2 ? '-' : ' '); add(mix.substr(0, pad / 2) + n + mix.substr(pad / 2)); }
+      }
+    }
+  }
 }
 static std::string list_obs() { return capture([] { masa_list_mms<double>(); }); }
 static int mode_c13(int tier, bool exceptions) {
